@@ -241,7 +241,7 @@ func (r *runner) roundTrip(ci *codecInfo, st *opState, o *op, i int) {
 // hostileSrc rebuilds the failing input of an op (deterministic).
 func hostileSrc(ci *codecInfo, o *op) []byte {
 	var valid []byte
-	if o.Bad.Mode == "trunc" || o.Bad.Mode == "flip" {
+	if o.Bad.Mode == "trunc" || o.Bad.Mode == "flip" || o.Bad.Mode == "tail" {
 		valid, _, _ = safeCall(func() ([]byte, error) { return ci.fresh().Encode(nil, o.In.bytes()) })
 	}
 	return o.Bad.apply(valid)
